@@ -52,6 +52,9 @@ LIST_LIKE_TYPES = [
 ]
 """A list of types that we should handle like lists."""
 
+LIST_LIKE_CLASSES = (frozenset, set, list, tuple)
+"""The types behind LIST_LIKE_TYPES: we look at the type itself, a class of the application can have any name."""
+
 ITER_LIKE_TYPES = [
     'list_iterator',
     'listiterator',
@@ -193,7 +196,7 @@ def variable_to_string(variable_type, var_value):
         # if interator like then make a custom string - we do not want to mess with iterators
         return 'Iterator of type: %s' % variable_type
     elif variable_type is dict \
-            or variable_type.__name__ in LIST_LIKE_TYPES:
+            or variable_type in LIST_LIKE_CLASSES:
         # if we are a collection then we do not want to use built in string as this can be very
         # large, and quite pointless, instead we just get the size of the collection
         return 'Size: %s' % len(var_value)
@@ -328,10 +331,16 @@ def find_children_for_parent(var_collector: Collector, parent_node: ParentNode, 
     """
     if variable_type is dict:
         return process_dict_breadth_first(parent_node, variable_type.__name__, value)
-    elif variable_type.__name__ in LIST_LIKE_TYPES:
+    elif variable_type in LIST_LIKE_CLASSES:
         return process_list_breadth_first(var_collector, parent_node, value)
-    elif isinstance(value, Exception):
-        return process_list_breadth_first(var_collector, parent_node, value.args)
+    elif issubclass(variable_type, Exception):
+        # the type, not isinstance: that asks the object for its __class__, and attribute access can raise
+        try:
+            args = value.args
+        except Exception:
+            args = None
+        if type(args) is tuple:
+            return process_list_breadth_first(var_collector, parent_node, args)
     attributes = instance_attributes(value)
     if attributes is not None:
         return process_dict_breadth_first(parent_node, variable_type.__name__, attributes, correct_names)
